@@ -207,6 +207,24 @@ func (vc *VC) newHeap0() *Heap {
 	return h
 }
 
+// closedEntryHeap: every reference stored in the heap at function entry denotes an object that exists at entry
+// (or nil), i.e. lies below the entry allocation counter -- in particular it is not an object this function
+// allocates later. Stated once per reference component that the function actually loads.
+func (vc *VC) closedEntryHeap(cs []comp) {
+	if vc.heap0 == nil {
+		return
+	}
+	for _, c := range cs {
+		if c.sort != refSort || !strings.HasSuffix(c.name, ".r") || vc.trusted["closed:"+c.name] {
+			continue
+		}
+		vc.trusted["closed:"+c.name] = true
+		h0 := vc.heap0.m[c.name]
+		t := sel(sel(h0, "r!"), "o!")
+		vc.decls = append(vc.decls, fmt.Sprintf("(assert (forall ((r! Int) (o! (_ BitVec 64))) (! (and (<= 0 %s) (< %s %s)) :pattern (%s))))", t, t, vc.heap0.alloc, t))
+	}
+}
+
 func (vc *VC) load(h *Heap, l *Layout, t types.Type, r, o string) *Val {
 	if l.Kind == KAgg {
 		return &Val{K: KAgg, T: t, C: []string{r, o}, H: h}
@@ -214,6 +232,10 @@ func (vc *VC) load(h *Heap, l *Layout, t types.Type, r, o string) *Val {
 	v := &Val{K: l.Kind, W: l.W, Signed: l.Signed, T: t}
 	for _, c := range compsOf(l.Kind, l.W) {
 		v.C = append(v.C, sel(sel(h.m[c.name], r), o))
+	}
+	switch l.Kind {
+	case KPtr, KSlice, KString, KIface:
+		vc.closedEntryHeap(compsOf(l.Kind, l.W))
 	}
 	return v
 }
